@@ -443,6 +443,10 @@ def run(ctx):
     D.loops_visit_all(ctx, "R-C04.11", only=("db::Database::recover", "recovery::recover_sealed_memtables", "recovery::recover_keyspaces", "journal::recovery::recover_journals"))
 
     # ---- borrowed obligations (mechanisms owned by other properties that this property's verdict also rests on)
+    # what was journaled decodes to the same bytes on reopen
+    ctx.borrow("C15", ["R-C15.3", "R-C15.6"], "R-C04.12")
+    # ingestion finishes under the journal lock
+    ctx.borrow("C14", ["R-C14.2"], "R-C04.13")
     # what recovery leaves at the journal's tail decides what the NEXT reopen reads
     ctx.borrow("C03", ["R-C03.3"], "R-C04.9")
 
